@@ -487,6 +487,36 @@ PROBE_SNIPPETS = {
                    {"probemid.frugal": 'include "probefar.frugal"\ntypedef probefar.FarS MidT\n'
                                        "typedef list<probefar.FarU> MidL\n",
                     "probefar.frugal": "struct FarS { 1: i32 a }\nunion FarU { 1: i32 a }\n"}),
+    # repaired generator defects (findings triage): broader programs around the former known findings
+    # C11-K5/K7/K8, C02-snake-extends, C03-arg-name-collision, C02-service-import; they must compile
+    "dfx_allcaps_everywhere": (
+        'include "dfxcapsinc.frugal"\nstruct DFX_CAPS { 1: i32 a }\nenum DFX_ENUM { X_Y = 1, Z = 2 }\n'
+        'union DFX_UNION { 1: i32 a, 2: DFX_CAPS c }\nexception DFX_EXC { 1: string m }\ntypedef DFX_CAPS DfxCapsAlias\n'
+        'struct DfxCapsUser { 1: DFX_CAPS c, 2: list<DFX_CAPS> l, 3: map<DFX_ENUM, DFX_UNION> m, 4: dfxcapsinc.INC_CAPS ic, '
+        '5: dfxcapsinc.INC_ENUM ie = dfxcapsinc.INC_ENUM.A_B, 6: DFX_ENUM e = DFX_ENUM.Z, 7: DfxCapsAlias ca, 8: optional DFX_ENUM oe }\n'
+        'const DFX_CAPS DFX_CC = {"a": 1}\n'
+        'service DfxCapsSvc { DFX_CAPS f(1: DFX_UNION u, 2: dfxcapsinc.INC_CAPS c) throws (1: DFX_EXC e), DFX_ENUM g(1: DFX_ENUM e) }\n'
+        'scope DfxCapsEv { made: DFX_CAPS }\n',
+        {"dfxcapsinc.frugal": "struct INC_CAPS { 1: i32 a }\nenum INC_ENUM { A_B = 1 }\n"}),
+    "dfx_extends_shapes": (
+        'include "dfxbaseinc.frugal"\nservice dfx_kid_svc extends dfxbaseinc.dfx_base_svc { void pong() }\n'
+        'service dfxGrandKid extends dfx_kid_svc { void pang() }\nservice DfxLast extends dfxGrandKid { void pung() }\n',
+        {"dfxbaseinc.frugal": "service dfx_base_svc { void ping() }\n"}),
+    "dfx_throws_names": (
+        'exception DfxErrA { 1: string m }\nexception DfxErrB { 1: string m }\nexception DfxErrC { 1: string m }\n'
+        'service DfxThrower { void f() throws (1: DfxErrA DFX_ERR, 2: DfxErrB new_err, 3: DfxErrC bad_args), '
+        'i32 g() throws (1: DfxErrB e_result) }\n', {}),
+    "dfx_arg_names": (
+        'exception DfxArgErr { 1: string why }\nservice DfxArgs {\n' + ",\n".join(
+            "  string m%d(1: string %s, 2: i32 plain) throws (1: DfxArgErr e)" % (i, n) for i, n in enumerate(
+                ["err", "result", "args", "ret", "r", "f", "fctx", "fmt", "type", "func", "range", "len", "frugal", "thrift",
+                 "error", "Err", "go", "map"])) + ',\n  oneway void ow(1: i32 err),\n  void vv(1: i32 result, 2: i32 ret)\n}\n', {}),
+    "dfx_typedef_import": (
+        'include "dfxtdinc.frugal"\ntypedef dfxtdinc.P DfxPT\ntypedef DfxPT DfxPT2\ntypedef map<string, DfxPT2> DfxPM\n'
+        'typedef dfxtdinc.X DfxXT\ntypedef dfxtdinc.En DfxET\ntypedef dfxtdinc.IP DfxIPT\n'
+        'service DfxTdSvc {\n DfxPM m(1: DfxPT2 a, 2: DfxET e, 3: DfxIPT i) throws (1: DfxXT x),\n oneway void o(1: DfxPM pm)\n}\n'
+        'service DfxTdOther { void nothing(1: i32 a) }\nscope DfxTdEv { made: DfxPM }\nscope DfxTdEv2 { other: i32 }\n',
+        {"dfxtdinc.frugal": "struct P { 1: i32 x }\nexception X { 1: string m }\nenum En { A = 1 }\ntypedef P IP\n"}),
     # the witness of theorem c11_classification_total_refuted: two different files included under
     # the same name
     "far_same_name": ('include "farinca.frugal"\ninclude "farincb.frugal"\nstruct ProbeFarR { 1: farinca.T f }\n',
